@@ -29,7 +29,7 @@ REGIMES = ["BOOL", "BOOL", "MT", "QQ", "FLOAT", "FREE"]
 
 
 def examples(tier):
-    return 640 if tier == "quick" else 12000
+    return 2400 if tier == "quick" else 24000
 
 
 @st.composite
